@@ -384,51 +384,7 @@ def r4_to_r8(R, tr, inc):
             why = "could not identify what the seeding loop iterates over"
         R.ob("C12-R4", "order", "carried expiries are seeded before (and overwritten by) new/renewed expiries", ok,
              where=inc.where(sets[0].ln if sets else None), detail=why if not ok else None)
-    # ---- R5, R6
-    rounds = [b for b in prog.bodies.values() if (b.r.get("trait_item") or "").endswith("ProvenanceInferenceStrategy::infer_round") and b.crate == "datalog"]
-    for b in rounds:
-        R.saw(b)
-        folds = [c for c in b.calls() if c.name() in ("fold", "reduce", "try_fold")]
-        conj_folds = []
-        for c in folds:
-            from c19 import closure_family_calls
-            key, inner = closure_family_calls(prog, b, c.args[-1])
-            if key and any(ic.name() == "conjunction" for x, ic in inner):
-                conj_folds.append(c)
-        R.ob("C12-R5", "fold:" + b.short, "%s combines premise tags with a fold over conjunction (found %d)" % (b.short, len(conj_folds)),
-             len(conj_folds) >= 1, where=b.where())
-        for c in conj_folds:
-            t = P.tree(b, c.args[0])
-            names, roots = P.flat(t)
-            bad = [n for n in names if n not in ("iter", "into_iter", "map", "deref", "cloned", "copied", "as_slice", "clone", "as_ref", "borrow", "to_vec", "collect")]
-            rootok = len(roots) == 1 and roots[0]["k"] == "root"
-            src = None
-            if rootok:
-                der = P.derives(prog, b, roots[0]["local"])
-                src = ("call", "find_premise_solutions_with_triples") in der
-            ok = not bad and rootok and bool(src)
-            R.ob("C12-R5", "all-premises:" + b.short, "the conjunction ranges over every matched premise fact of the instance (pipeline %s)" % P.render(t),
-                 ok, where=b.where(c.ln),
-                 detail=None if ok else "adaptor(s) %s cut the premises short / the folded collection is not the matched-premise list: a skipped "
-                 "premise's expiry (or probability) does not bound the conclusion's tag" % bad)
-        # matched premise list itself: built over all rule.premise patterns
-        rp = [x for x in prog.bodies.values() if x.crate == "datalog" and x.name == "resolve_premise_triples" and "provenance_semi_naive" in x.key]
-        for x in rp:
-            for c in x.calls():
-                if c.name() in ("filter_map", "map") and c.args:
-                    names, roots = P.flat(P.tree(x, c.args[0]))
-                    bad = [n for n in names if n not in ("iter", "into_iter", "deref")]
-                    R.ob("C12-R5", "patterns:" + x.short, "resolve_premise_triples visits every premise pattern (pipeline %s)" % names, not bad, where=x.where(c.ln))
-        # R6
-        joins = [c for c in b.calls() if c.name().startswith("find_premise_solutions")]
-        R.ob("C12-R6", "join:" + b.short, "%s hands a delta to the premise join" % b.short, len(joins) >= 1, where=b.where())
-        for c in joins:
-            pl = F.op_place(c.args[-1])
-            der = P.derives(prog, b, pl["l"]) if pl is not None else set()
-            ok = ("field", "self.delta_improved") in der
-            R.ob("C12-R6", "consumes:" + b.short, "the delta of a later round includes the facts queued in self.delta_improved", ok, where=b.where(c.ln),
-                 detail=None if ok else "facts whose tag improved are queued but never joined again: consequences keep the stale, too-early expiry")
-            # the same local on every path (no branch that builds the delta without the queue, except the first round)
+    r5_r6(R)
     # ---- R7
     if tr is not None:
         fam = prog.family(tr.key)
@@ -548,3 +504,52 @@ def _root_param12(cl, l, depth=0):
         if src is not None:
             return _root_param12(cl, src["l"], depth + 1)
     return None
+
+
+def r5_r6(R):
+    """the provenance round: conjunction over every matched premise; improved facts are consumed (shared with C06)"""
+    prog = R.prog
+    rounds = [b for b in prog.bodies.values() if (b.r.get("trait_item") or "").endswith("ProvenanceInferenceStrategy::infer_round") and b.crate == "datalog"]
+    for b in rounds:
+        R.saw(b)
+        folds = [c for c in b.calls() if c.name() in ("fold", "reduce", "try_fold")]
+        conj_folds = []
+        for c in folds:
+            from c19 import closure_family_calls
+            key, inner = closure_family_calls(prog, b, c.args[-1])
+            if key and any(ic.name() == "conjunction" for x, ic in inner):
+                conj_folds.append(c)
+        R.ob("C12-R5", "fold:" + b.short, "%s combines premise tags with a fold over conjunction (found %d)" % (b.short, len(conj_folds)),
+             len(conj_folds) >= 1, where=b.where())
+        for c in conj_folds:
+            t = P.tree(b, c.args[0])
+            names, roots = P.flat(t)
+            bad = [n for n in names if n not in ("iter", "into_iter", "map", "deref", "cloned", "copied", "as_slice", "clone", "as_ref", "borrow", "to_vec", "collect")]
+            rootok = len(roots) == 1 and roots[0]["k"] == "root"
+            src = None
+            if rootok:
+                der = P.derives(prog, b, roots[0]["local"])
+                src = ("call", "find_premise_solutions_with_triples") in der
+            ok = not bad and rootok and bool(src)
+            R.ob("C12-R5", "all-premises:" + b.short, "the conjunction ranges over every matched premise fact of the instance (pipeline %s)" % P.render(t),
+                 ok, where=b.where(c.ln),
+                 detail=None if ok else "adaptor(s) %s cut the premises short / the folded collection is not the matched-premise list: a skipped "
+                 "premise's expiry (or probability) does not bound the conclusion's tag" % bad)
+        # matched premise list itself: built over all rule.premise patterns
+        rp = [x for x in prog.bodies.values() if x.crate == "datalog" and x.name == "resolve_premise_triples" and "provenance_semi_naive" in x.key]
+        for x in rp:
+            for c in x.calls():
+                if c.name() in ("filter_map", "map") and c.args:
+                    names, roots = P.flat(P.tree(x, c.args[0]))
+                    bad = [n for n in names if n not in ("iter", "into_iter", "deref")]
+                    R.ob("C12-R5", "patterns:" + x.short, "resolve_premise_triples visits every premise pattern (pipeline %s)" % names, not bad, where=x.where(c.ln))
+        # R6
+        joins = [c for c in b.calls() if c.name().startswith("find_premise_solutions")]
+        R.ob("C12-R6", "join:" + b.short, "%s hands a delta to the premise join" % b.short, len(joins) >= 1, where=b.where())
+        for c in joins:
+            pl = F.op_place(c.args[-1])
+            der = P.derives(prog, b, pl["l"]) if pl is not None else set()
+            ok = ("field", "self.delta_improved") in der
+            R.ob("C12-R6", "consumes:" + b.short, "the delta of a later round includes the facts queued in self.delta_improved", ok, where=b.where(c.ln),
+                 detail=None if ok else "facts whose tag improved are queued but never joined again: consequences keep the stale, too-early expiry")
+            # the same local on every path (no branch that builds the delta without the queue, except the first round)
